@@ -459,6 +459,17 @@ func init() {
 		return p.fresh("opaque_duration", SStr)
 	}
 	I["(*time.Location).String"] = opaqueStr("locString")
+	// the message of a field validation error (formats its value through reflection):
+	// only ever logged or compared for de-duplication, never parsed
+	I["(*k8s.io/apimachinery/pkg/util/validation/field.Error).ErrorBody"] = opaqueStr("fieldErrorBody")
+	// ErrorList.ToAggregate: nil for an empty list, otherwise one error whose message
+	// (a de-duplicated rendering of the members) is opaque
+	I["(k8s.io/apimachinery/pkg/util/validation/field.ErrorList).ToAggregate"] = func(p *Path, a []Value, _ *ssa.CallCommon) Value {
+		if s, ok := a[0].(SliceVal); ok && s.len > 0 {
+			return p.newErr(nil, nil, "fieldErrorAggregate")
+		}
+		return IfaceVal{}
+	}
 	floatOfDur := func(div float64) intrinsicFn {
 		return func(p *Path, a []Value, _ *ssa.CallCommon) Value {
 			if d, ok := termOf(a[0]).constInt64(); ok {
